@@ -74,7 +74,7 @@ def handleC14Mut (fs : List (String × String)) : String := Id.run do
   let base := getD fs "base" "000"
   let n := (getNat fs "n").getD 0
   let acts := splitNE (getD fs "acted" "-") "," |>.filter (· != "-")
-  let genuine := src == "genuine1" || src == "genuine2"
+  let genuine := src == "genuine1" || src == "genuine2" || src == "skipown"
   let mut agree := true
   let mut bad : Option String := none
   let mut notes : List String := []
